@@ -561,15 +561,19 @@ func TestC17(t *testing.T) {
 			}
 		}
 	}
-	ev.Parallel(ev.Pick(40, 1000), 8, func(i int) {
+	ev.Parallel(ev.Pick(200, 6000), 8, func(i int) {
 		g := rng.Sub(700000 + i)
 		var o outcome
 		name := ""
-		switch i % 4 {
-		case 0, 1:
+		switch {
+		case i%10 == 0 || i%10 == 1:
 			kind := []string{"unix", "tcp"}[i%2]
 			name = "cancel-during-delivery-" + kind
 			o = cancelDuringDelivery(dir, 500000+i, g, kind)
+		case i%10 >= 4:
+			kind := []string{"unix", "tcp"}[i%2]
+			name = "connect-at-cancel-" + kind
+			o = connectAtCancel(dir, 500000+i, g, kind)
 		default:
 			name = "datagram-backlog"
 			o = datagramBacklog(dir, 500000+i, g, bufSize)
@@ -782,6 +786,79 @@ func datagramBacklog(dir string, idx int, g *ev.RNG, bufSize int) outcome {
 		return outcome{what: "cancelled after everything: the stream's output did not end\n" + dump()}
 	}
 	return outcome{got: nil, closedOK: true}
+}
+
+// connectAtCancel: connections keep arriving (connect, write a line, close)
+// while the stream is cancelled: one accepted at that very moment must neither
+// be lost track of nor find the output already closed. Everything delivered is
+// a whole line some connection wrote, and the output ends.
+func connectAtCancel(dir string, idx int, g *ev.RNG, kind string) outcome {
+	c, bad := newStreamCase(dir, idx, kind, 0)
+	if c == nil {
+		return outcome{what: bad, inconc: true}
+	}
+	defer c.stop()
+	dialWrite := func(line string) bool {
+		cc, err := net.Dial(kind, c.dial)
+		if err != nil {
+			return false
+		}
+		_, _ = cc.Write([]byte(line + "\n"))
+		cc.Close()
+		return true
+	}
+	ok := false
+	for try := 0; try < 200 && !ok; try++ {
+		if ok = dialWrite("w0:0:first"); !ok {
+			time.Sleep(time.Millisecond)
+		}
+	}
+	if !ok || !fsdrv.Await(func() bool { return len(c.snapshot()) >= 1 }, watchdog) {
+		return outcome{what: "first connection's line was not delivered (harness or stream)", inconc: !ok, got: c.snapshot()}
+	}
+	stop := make(chan struct{})
+	var dwg sync.WaitGroup
+	for d := 1; d <= 3; d++ {
+		d := d
+		dwg.Add(1)
+		go func() {
+			defer dwg.Done()
+			for n := 0; ; n++ {
+				select {
+				case <-stop:
+					return
+				default:
+				}
+				if !dialWrite(fmt.Sprintf("w%d:%d:storm", d, n)) {
+					select {
+					case <-stop:
+						return
+					case <-time.After(50 * time.Microsecond):
+					}
+				}
+			}
+		}()
+	}
+	time.Sleep(time.Duration(g.Intn(1500)) * time.Microsecond)
+	c.cancel()
+	var res outcome
+	select {
+	case <-c.closed:
+	case <-time.After(watchdog):
+		res = outcome{what: "cancelled while connections keep arriving: the stream's output did not end\n" + dump()}
+	}
+	close(stop)
+	dwg.Wait()
+	if res.what != "" {
+		return res
+	}
+	lineRe := regexp.MustCompile(`^w\d+:\d+:(first|storm)$`)
+	for _, l := range c.snapshot() {
+		if !lineRe.MatchString(l) {
+			return outcome{what: fmt.Sprintf("delivered line %q is not a line any connection wrote", l), got: clipLines(c.snapshot())}
+		}
+	}
+	return outcome{closedOK: true}
 }
 
 func clipLines(ls []string) []string {
